@@ -281,6 +281,36 @@ fn classify_code(defs: &[Def], len: u8, c: u32, st: &mut Stats) -> Option<&'stat
     None
 }
 
+/// Finding `cmap-leading-bom-sniffed` (known_findings.json): the UTF-16 units the CMap defines for the
+/// whole input start with FEFF or FFFE, the observed text is exactly what byte-order-mark sniffing
+/// makes of those units (FEFF: the first unit dropped; FFFE: the first unit dropped and the rest read
+/// little-endian), and the same input behind one mapped code whose value starts with another unit
+/// decodes to what the CMap defines. Anything else stays unclassified.
+fn classify_bom(defs: &[Def], extra: &Extra, inp: &Input, observed: &Out, st: &mut Stats) -> Option<&'static str> {
+    let mut units: Vec<u16> = vec![];
+    for &(l, c) in inp {
+        units.extend(rc::lookup(defs, l, c)?);
+    }
+    let model = match units.first() {
+        Some(0xFEFF) => rc::utf16_to_string(&units[1..]),
+        Some(0xFFFE) => rc::utf16_to_string(&units[1..].iter().map(|u| u.swap_bytes()).collect::<Vec<u16>>()),
+        _ => return None,
+    };
+    if observed.as_ref() != Ok(&model) {
+        return None;
+    }
+    // neutralise exactly that feature: the same units, no longer at the start of the output
+    let front = rc::mapped_codes(defs).into_iter().find(|&(l, c)| !matches!(rc::lookup(defs, l, c).and_then(|v| v.first().copied()), Some(0xFEFF) | Some(0xFFFE) | None))?;
+    let mut longer = vec![front];
+    longer.extend(inp.iter().cloned());
+    let want = rc::expected_text(defs, &longer)?;
+    let (text, _) = render_ex(defs, extra, &[]);
+    match run_lopdf(&text, &[longer], st) {
+        Ok(o) if o[0].as_ref() == Ok(&want) => Some("cmap-leading-bom-sniffed"),
+        _ => None,
+    }
+}
+
 // ---------------------------------------------------------------------------------------------
 // one CMap, all its renderings
 
@@ -381,13 +411,17 @@ fn check_cmap_inputs(run: &Run, part: &'static str, defs: &[Def], extra: &Extra,
             let mut single_class: BTreeMap<(u8, u32), Option<&'static str>> = BTreeMap::new();
             for (k, inp) in inputs.iter().enumerate() {
                 if inp.len() == 1 && outs[k].as_ref() != Ok(&expected[k]) {
-                    let f = classify_code(defs, inp[0].0, inp[0].1, st);
+                    let f = classify_bom(defs, extra, inp, &outs[k], st).or_else(|| classify_code(defs, inp[0].0, inp[0].1, st));
                     single_class.insert(inp[0], f);
                     base[k] = Some((outs[k].clone(), f));
                 }
             }
             for (k, inp) in inputs.iter().enumerate() {
                 if inp.len() != 1 && outs[k].as_ref() != Ok(&expected[k]) {
+                    if let Some(f) = classify_bom(defs, extra, inp, &outs[k], st) {
+                        base[k] = Some((outs[k].clone(), Some(f)));
+                        continue;
+                    }
                     // predicted from the single-code observations: concatenation, or the first failure
                     let mut predicted: Out = Ok(String::new());
                     let mut finding = None;
@@ -553,6 +587,31 @@ fn array_cmaps() -> Vec<(Vec<Def>, &'static str)> {
     out
 }
 
+/// Targets whose first UTF-16 unit is FEFF (ZERO WIDTH NO-BREAK SPACE) or FFFE, given by a bfchar, as
+/// the second code of an incrementing range, as an array element, as the first and as the second unit
+/// of a two-unit target, next to two ordinary codes; 2-byte and 1-byte codes. Inputs: the usual empty
+/// string, single codes and ordered pairs, so the unit stands first, in the middle and last.
+fn bom_cmaps() -> Vec<Vec<Def>> {
+    let mut out = vec![];
+    for (len, b) in [(2u8, 0x0051u32), (1u8, 0x51u32)] {
+        for t in [0xFEFFu16, 0xFFFE] {
+            let plain = vec![Def::Char { len, code: b + 4, t: vec![0x0042] }, Def::Char { len, code: b + 5, t: rc::T_LIG.to_vec() }];
+            let with = |d: Def| {
+                let mut v = plain.clone();
+                v.push(d);
+                v
+            };
+            out.push(with(Def::Char { len, code: b, t: vec![t] }));
+            out.push(with(Def::Range { len, lo: b, hi: b + 1, t: vec![t - 1] }));
+            out.push(with(Def::Array { len, lo: b, hi: b + 1, ts: vec![vec![0x0043], vec![t]] }));
+            out.push(with(Def::Char { len, code: b, t: vec![t, 0x0041] }));
+            out.push(with(Def::Char { len, code: b, t: vec![0x0041, t] }));
+            out.push(with(Def::Range { len, lo: b, hi: b + 1, t: vec![0x0041, t - 1] }));
+        }
+    }
+    out
+}
+
 /// CMaps with mappings but unusual section structure: explicit code spaces that also declare code
 /// lengths nothing is mapped in, one codespace section per range, and (liberal) empty sections.
 fn structure_cmaps() -> Vec<(Vec<Def>, Extra)> {
@@ -705,6 +764,9 @@ fn check_mappingless(run: &Run, extra: &Extra, inputs: &[Vec<u8>], st: &mut Stat
             Err(e) => {
                 if liberal {
                     st.liberal_rejected += 1;
+                    if base_liberal && dev.is_empty() {
+                        st.liberal_by_class.entry("empty_section=1".to_string()).or_insert([0; 3])[1] += 1;
+                    }
                 } else {
                     run.fail(None, case(None), &e, "a well-formed CMap that has code space ranges and no mappings is accepted");
                 }
@@ -725,6 +787,9 @@ fn check_mappingless(run: &Run, extra: &Extra, inputs: &[Vec<u8>], st: &mut Stat
                         st.liberal_misdecoded += 1;
                     } else {
                         st.liberal_accepted_correct += 1;
+                    }
+                    if base_liberal && dev.is_empty() {
+                        st.liberal_by_class.entry("empty_section=1".to_string()).or_insert([0; 3])[if bad { 2 } else { 0 }] += 1;
                     }
                 }
             }
@@ -989,11 +1054,12 @@ fn main() {
          (code -> 0061+position), IdArr (the Id values as an array of one-unit elements), Lig (fixed two-unit target) and Mix (array of 1-, 2- and 3-unit elements fixed per position): \
          80 entries. ovl3 = every sequence of 3 entries (512,000; default spelling and all merges taken; thorough: every combination of merges); ovl4 = every sequence of 4 entries of \
          the Id/Sh sub-menu (30 entries, 810,000, default spelling; thorough: Id/Sh/Lig, 45 entries, 4,100,625, default spelling and all merges taken); ovl3_edges = every 3-sequence of the Id/Sh menu over the last 5 codes of the 1-, 2-, 3- \
-         and 4-byte code space and over 00FE..0102; ovl_mixed_lengths = every 3-sequence (thorough: also 4) over the Id/Sh menus of the 3-code windows 41..43 (1-byte) and 0041..0043 \
+         and 4-byte code space and over 00FE..0102, and of the Id/IdArr menu whose values 00FD..0101 cross the low byte of the target (ranges that would carry out of it are ill-formed and left out); ovl_mixed_lengths = every 3-sequence (thorough: also 4) over the Id/Sh menus of the 3-code windows 41..43 (1-byte) and 0041..0043 \
          (2-byte) in one CMap. So a later definition meets earlier ones with equal ends, inner holes, identical and shifted targets, in all three spellings, across and inside sections. \
          Array targets: arrays_profile = arrays of 2..4 elements in every profile of element lengths {1,2,3} x leading units ascending/equal/descending from 0041 and 00FE, alone and \
          on top of an identity range two codes wider at its start, middle and end, 1- and 2-byte codes, with the deviations of the tier; arrays_alphabet = every array of 2..4 elements \
          over 12 elements (leading unit 0041..0044 x 1..3 units) and over 6 elements sharing the leading unit (last unit counting), default spelling. \
+         bom_targets = 24 CMaps whose targets hold FEFF / FFFE as the only, first or second unit (bfchar, range, array), decoded first, in the middle and last. \
          Degenerate CMaps: structure = 5 small definition sets x explicit code spaces (one range; ranges of other code lengths nothing is mapped in; one codespace section per range) \
          and, as liberal spellings, an empty section (0 beginbfchar / 0 beginbfrange) in front of each definition and at the end; mappingless = CMaps with code space ranges only \
          (6 code spaces, split or not; with empty sections as liberal spellings), default spelling and every single deviation, decoded for the empty string (must be empty), \
@@ -1076,6 +1142,12 @@ fn main() {
         let m = rc::overlap_menu(len, base, 5, &[Form::Id, Form::Sh], 0x0391, 0x03B1);
         sweep(&run, &total, "ovl3_edges", &m, 3, Explore::AllMerged, None);
     }
+    // targets that cross 00FF/0100: one-unit values 00FD..0101 given by bfchars, by ranges that stay inside
+    // one low byte (a range that carries out of it is ill-formed and left out) and by arrays
+    let mut tgt_edge = rc::overlap_menu(2, 0x0041, 5, &[Form::Id, Form::IdArr], 0x00FD, 0x0061);
+    tgt_edge.retain(|d| d.well_formed());
+    sweep(&run, &total, "ovl3_edges", &tgt_edge, 3, Explore::AllMerged, None);
+    run.set("ovl3_target_edge_menu_size", json!(tgt_edge.len()));
     // the same numeric window as 1-byte and as 2-byte codes in one CMap (prefix-free: 00 is not a mapped 1-byte code)
     let mut mix12 = rc::overlap_menu(1, 0x41, 3, &[Form::Id, Form::Sh], 0x0041, 0x0061);
     mix12.extend(rc::overlap_menu(2, 0x0041, 3, &[Form::Id, Form::Sh], 0x0141, 0x0161));
@@ -1094,6 +1166,13 @@ fn main() {
         for (defs, part) in &arrays[ci * 256..(ci * 256 + 256).min(arrays.len())] {
             check_cmap(&run, part, defs, if *part == "arrays_profile" { Explore::Upto(d) } else { Explore::Upto(0) }, &mut st);
         }
+        total.lock().unwrap().merge(st);
+    });
+    // 8b. targets that start with a byte-order-mark value
+    let boms = bom_cmaps();
+    util::par_for(boms.len(), |i| {
+        let mut st = Stats::default();
+        check_cmap(&run, "bom_targets", &boms[i], Explore::Upto(1), &mut st);
         total.lock().unwrap().merge(st);
     });
     // 9. degenerate CMaps: unusual section structure with mappings; no mappings at all
